@@ -10,14 +10,22 @@
 (*   new  g s         sync.Pool's New created state s                      *)
 (*   get  g s         statePool.get() returned s                           *)
 (*   scr  g obj kind  goroutine g starts using mutable scratch object obj  *)
+(*   at   g          g stands before a pool operation (left any scratch entry) *)
 (*   cas  g s ok      CompareAndSwap(nil, s) ; ok = 1 iff it succeeded     *)
 (*   put  g s         statePool.put(s)                                     *)
 (*   gc               the harness forced garbage collections               *)
 (*   end  g           a call of g returned (emitted by the goroutine)       *)
 (*   ret  g ok        ok = 1 iff that call's result = sequential result    *)
-(* The actions are those of spec/Pool.tla with state identities.  A call   *)
-(* owns its scratch objects from `scr` until it has handed its state back  *)
-(* (cas ok / put): two calls in progress must never use the same object.   *)
+(* The actions are those of spec/Pool.tla with state identities.           *)
+(* Scratch exclusivity: the hook emits `scr` at the ENTRY of a search on   *)
+(* the object and then parks at a gate; if the goroutine's next event has  *)
+(* not happened yet it is still inside that entry.  The replay leaves      *)
+(* goroutines parked there while others run, so using[g] = the object g is *)
+(* entering right now, and no other goroutine may enter it meanwhile.      *)
+(* (An object taken from a sync.Pool inside a search and given back before *)
+(* the call returns may legitimately serve another call later: ownership   *)
+(* "until the call returns" would be a false alarm - it was one, see       *)
+(* DESIGN 7.3.)                                                            *)
 (***************************************************************************)
 EXTENDS Integers, Sequences, FiniteSets, TLC, Json
 
@@ -28,7 +36,7 @@ Gs == 1..MaxG
 
 VARIABLES l, local, pool, held, using, known, fresh, pat
 vars == <<l, local, pool, held, using, known, fresh, pat>>
-\* using[g]: set of scratch objects the call in progress of g has touched
+\* using[g]: the scratch object g is entering right now ({} once g has moved on)
 \* known: states ever seen; fresh[g]: state just created by New for g's pending get
 
 \* held[g] is a SET: a call may acquire a second state while it holds one (an API built on another API)
@@ -44,33 +52,36 @@ Begin == /\ IsEvent("begin")
 Swap == /\ IsEvent("swap")
         /\ E.s = local                                  \* what Swap returns is what the slot held
         /\ local' = 0 /\ held' = [held EXCEPT ![E.g] = IF E.s = 0 THEN @ ELSE @ \cup {E.s}]
-        /\ UNCHANGED <<pool, using, known, fresh, pat>>
+        /\ using' = [using EXCEPT ![E.g] = {}]
+        /\ UNCHANGED <<pool, known, fresh, pat>>
 
 New == /\ IsEvent("new") /\ E.s \notin known
        /\ known' = known \cup {E.s} /\ fresh' = [fresh EXCEPT ![E.g] = E.s]
-       /\ UNCHANGED <<local, pool, held, using, pat>>
+       /\ using' = [using EXCEPT ![E.g] = {}]
+       /\ UNCHANGED <<local, pool, held, pat>>
 
 Get == /\ IsEvent("get")
        /\ \/ (E.s = fresh[E.g] /\ pool' = pool)          \* the pool missed and made a new state
           \/ (E.s \in pool /\ fresh[E.g] = 0 /\ pool' = pool \ {E.s})
        /\ held' = [held EXCEPT ![E.g] = @ \cup {E.s}] /\ fresh' = [fresh EXCEPT ![E.g] = 0]
        /\ known' = known \cup {E.s}
-       /\ UNCHANGED <<local, using, pat>>
+       /\ using' = [using EXCEPT ![E.g] = {}]
+       /\ UNCHANGED <<local, pat>>
 
-\* exclusive scratch: no other call in progress has touched this object.  A violation is REPORTED (one JSON
+\* exclusive scratch: no other goroutine is inside the entry of this object.  A violation is REPORTED (one JSON
 \* line) instead of disabling the action, so that the rest of the recorded executions is still validated.
 Scr == /\ IsEvent("scr")
        /\ (\E h \in Gs : h # E.g /\ E.obj \in using[h]) =>
               PrintT(ToJson([viol |-> "scratch-shared", pat |-> pat, line |-> l, g |-> E.g, kind |-> E.kind]))
-       /\ using' = [using EXCEPT ![E.g] = @ \cup {E.obj}]
+       /\ using' = [using EXCEPT ![E.g] = {E.obj}]
        /\ UNCHANGED <<local, pool, held, known, fresh, pat>>
 
 Release(g, st) == /\ held' = [held EXCEPT ![g] = @ \ {st}]
-                  /\ using' = [using EXCEPT ![g] = IF held[g] = {st} THEN {} ELSE @]
+                  /\ using' = [using EXCEPT ![g] = {}]
 Cas == /\ IsEvent("cas") /\ E.s \in held[E.g]
        /\ E.ok = (IF local = 0 THEN 1 ELSE 0)
        /\ IF E.ok = 1 THEN local' = E.s /\ Release(E.g, E.s)
-                      ELSE UNCHANGED <<local, held, using>>
+                      ELSE UNCHANGED <<local, held>> /\ using' = [using EXCEPT ![E.g] = {}]
        /\ UNCHANGED <<pool, known, fresh, pat>>
 
 Put == /\ IsEvent("put") /\ E.s \in held[E.g]
@@ -86,10 +97,14 @@ CallEnd == /\ IsEvent("end") /\ held[E.g] = {}
            /\ using' = [using EXCEPT ![E.g] = {}]
            /\ UNCHANGED <<local, pool, held, known, fresh, pat>>
 
+At == /\ IsEvent("at")
+      /\ using' = [using EXCEPT ![E.g] = {}]
+      /\ UNCHANGED <<local, pool, held, known, fresh, pat>>
+
 Ret == /\ IsEvent("ret") /\ E.ok = 1                    \* the call returned its sequential result
        /\ UNCHANGED <<local, pool, held, using, known, fresh, pat>>
 
-Next == Begin \/ Swap \/ New \/ Get \/ Scr \/ Cas \/ Put \/ GC \/ CallEnd \/ Ret
+Next == Begin \/ Swap \/ New \/ Get \/ Scr \/ At \/ Cas \/ Put \/ GC \/ CallEnd \/ Ret
 Spec == Init /\ [][Next]_vars
 
 Exclusive == \A g, h \in Gs : g # h => held[g] \cap held[h] = {}
